@@ -34,7 +34,19 @@ ASSUMPTIONS = ["only exceptions derived from Exception are considered (KeyboardI
 
 GASOL = "gasol_asm"
 ROOTS = {"compute_original_sfs_with_simplifications", "optimize_block", "rebuild_optimized_asm_block",
-         "verify_block_from_list_of_sfs", "asm_from_ids", "evm2rbr_compiler", "get_sfs_dict"}
+         "asm_from_ids", "evm2rbr_compiler", "get_sfs_dict"}       # + the verifier entry point, derived in pipeline_roots()
+
+
+def pipeline_roots(ctx):
+    """Names of the pipeline stages whose exceptions must be contained.  The verifier is found structurally (the function of
+    verification.sfs_verify that the block comparison calls); a listed stage that is defined nowhere stops the analysis rather than
+    silently leaving the set."""
+    roots = set(ROOTS) | {ctx.callee_in(ctx.func(f"{GASOL}.compare_asm_block_asm_format"), "verification.sfs_verify").name}
+    defined = {f.name for f in ctx.p.functions.values()}
+    gone = sorted(roots - defined)
+    if gone:
+        raise AnalysisError(f"pipeline stage(s) {gone} are defined nowhere any more: the list of stages in C10.py must be brought up to date")
+    return roots
 
 # call sites this technique cannot show safe and for which no failing input was exhibited
 TRIAGED_UNPROVEN = {
@@ -56,6 +68,7 @@ def _protected(call, fnode):
 def escape_summaries(ctx):
     """qualname -> list of (call node, callee name, chain) that may let an exception of a pipeline root escape."""
     funcs = {f.name: f for f in ctx.p.funcs_in(GASOL) if f.cls is None and f.parent is None}
+    ROOTS = pipeline_roots(ctx)
     summ = {name: [] for name in funcs}
     changed = True
     rounds = 0
@@ -80,6 +93,7 @@ def escape_summaries(ctx):
 
 def rule_a(ctx, out):
     funcs, summ = escape_summaries(ctx)
+    ROOTS = pipeline_roots(ctx)
     drivers = []
     for name, f in funcs.items():
         for loop in [n for n in own_nodes(f.node) if isinstance(n, (ast.For, ast.While))]:
